@@ -328,6 +328,23 @@ def spanline_rule(repo, res, rule="SPANLINE"):
               f"{fq} takes the end column from `{second}` at line(s) {bad} although it may lie on a later line: column_end < column_start reaches chic's renderer, which panics", fn.loc())
 
 
+def column_units(repo, res, rule="SPANLINE"):
+    """chic / annotate-snippets subtracts start from end: both columns of a span must be measured in the same unit.  In the HumanSpan
+    constructors every column is read with ONE accessor of the located span (get_column = bytes today); mixing it with
+    get_utf8_column / naive_get_utf8_column makes end < start after non-ASCII text on the line."""
+    accessors = {"get_column", "get_utf8_column", "naive_get_utf8_column"}
+    used = {}
+    for q in ("parse::HumanSpan::from_range", "parse::HumanSpan::from_machine"):
+        fn = repo.fn(q)
+        if fn is None:
+            res.undecided(rule, f"{rule}:{q}:units", "function not found")
+            continue
+        for n in A.walk(fn.body):
+            if n["k"] == "MethodCall" and n["method"] in accessors:
+                used.setdefault(n["method"], []).append(q)
+    res.check(len(used) == 1, rule, f"{rule}:parse::HumanSpan:one-column-unit", f"column accessors used by the span constructors: {({k: len(v) for k, v in used.items()})}" + ("" if len(used) == 1 else ": start and end columns are measured in different units (bytes vs characters)"), "src/parse.rs")
+
+
 def callgraph_soundness(mir, reach, res, rule="CG"):
     unresolved = collections.Counter()
     dyn = 0
@@ -363,6 +380,12 @@ def run(repo, res, tier):
     common.run_traversals(repo, res, only={"parse::flatten_expr", "check::collapse_subwords"})
     # the definition-edge recursions (do_check_subword_spaces, resolve_nonterminals) are bounded only because the cycle check ran on
     # every definition: its exemptions (early returns, skipped vertices) are the enumerated ones
+    from vlib import rules_fieldcover as FC
+    # discharges that were sentences in tables/panic_sites.toml: `id_from_cmd.get_index_of(cmd).unwrap()` is safe because get_commands
+    # collected every cmd-carrying symbol; `completion_subwords[level]` is in range because get_max_fallback_level saw every level-carrying symbol
+    FC.fieldcover(repo, res, "dfa::DFA::get_commands", "Inp", "cmd", "call:insert", min_matches=2)
+    FC.fieldcover(repo, res, "dfa::Inp::get_fallback_level", "Inp", "fallback_level", "value")
+    column_units(repo, res)
     from vlib import rules_skips as SK, tables
     n_sk = SK.skips_rule(repo, res, tables.load("skips")["row"], only={"check::get_nonterminals_resolution_order", "check::traverse_nonterminal_dependencies_dfs", "check::get_not_depended_on_nonterminals"})
     res.floor("SKIPS", n_sk, 12)
